@@ -206,6 +206,9 @@ func runProp(p *propDef, repo, verif, tier string, noev, verbose bool) (code int
 		cov["callgraph"] = map[string]string{"quick": "CHA over module SSA + address-taken functions", "thorough": "VTA over whole program + address-taken functions"}[tier]
 		cov["tag_sets"] = tagSets
 	}
+	if tier == "thorough" && !noev && os.Getenv("VERIF_NO_SELFTEST") == "" {
+		cov["selftest"] = selfTest(p.id, repo, verif)
+	}
 	ev := evidence{PropertyID: p.id, Tier: tier, Seed: seed, Level: "other", Coverage: cov,
 		Assumptions: p.assumptions, WallS: time.Since(t0).Seconds(), Violations: nViol}
 	if !noev {
